@@ -8,6 +8,7 @@ import (
 	"os"
 	"os/exec"
 	"runtime"
+	"runtime/pprof"
 	"sort"
 	"strings"
 	"sync"
@@ -59,8 +60,14 @@ func Main(all []*Scenario) {
 		fVerbose = flag.Bool("v", false, "verbose")
 		fPicks   = flag.String("picks", "", "run once with these comma-separated picks and print the log")
 	)
+	fProf := flag.String("cpuprofile", "", "write a CPU profile")
 	flag.Parse()
 	runtime.GOMAXPROCS(2)
+	if *fProf != "" {
+		f, _ := os.Create(*fProf)
+		pprof.StartCPUProfile(f)
+		defer pprof.StopCPUProfile()
+	}
 	byName := map[string]*Scenario{}
 	for _, s := range all {
 		byName[s.Name] = s
